@@ -141,6 +141,7 @@ class C01(E1Check):
         step = 40
         for i in range(0, len(progs), step):
             units.append(progs[i:i + step])
+        units.append({"gen_edges": True})
         return units
 
     def bound(self, tier: str, program: Any) -> int:
@@ -159,9 +160,94 @@ class C01(E1Check):
             return ("asyncio", "trio") if n == 1 or (n == 2 and program["cbs"][1]["route"] == "ctx" and not program["cbs"][1]["nest"]) else ("asyncio",)
         return ("asyncio", "trio") if n <= 2 else ("asyncio",)
 
+    def gen_edges_unit(self) -> dict:
+        """@context_teardown around generators that never reach a teardown part: one that finishes without yielding registers nothing;
+        one that raises before its yield registers nothing, lets the exception through and is closed at once (its `finally` runs)."""
+        from ..explore import new_summary
+
+        fails: list = []
+
+        async def main() -> None:
+            from asphalt.core import Context, context_teardown
+
+            log: list = []
+
+            @context_teardown
+            async def no_yield(tag: str) -> Any:
+                log.append(("setup", tag))
+                if tag == "never":
+                    yield
+
+            @context_teardown
+            async def raises_first(tag: str) -> Any:
+                try:
+                    log.append(("setup", tag))
+                    raise HE(tag)
+                    yield  # noqa: unreachable - makes this an async generator function
+                finally:
+                    log.append(("closed", tag))
+
+            @context_teardown
+            async def normal(tag: str) -> Any:
+                log.append(("setup", tag))
+                exc = yield
+                log.append(("teardown", tag, type(exc).__name__ if exc else None))
+
+            for block_raises in (False, True):
+                log.clear()
+                try:
+                    async with Context():
+                        await normal("a")
+                        r = await no_yield("b")
+                        if r is not None:
+                            fails.append(("gen-edge", f"a @context_teardown function returned {r!r}"))
+                        try:
+                            await raises_first("c")
+                            fails.append(("gen-edge", "the exception raised before the generator's yield did not reach the caller"))
+                        except HE:
+                            pass
+                        if ("closed", "c") not in log:
+                            fails.append(("gen-edge", "a generator that raised before its yield was not closed when the call returned"))
+                        await normal("d")
+                        log.append(("block-end",))
+                        if block_raises:
+                            raise HE("block")
+                except HE:
+                    pass
+                exc_name = "HE" if block_raises else None
+                want = [("setup", "a"), ("setup", "b"), ("setup", "c"), ("closed", "c"), ("setup", "d"), ("block-end",),
+                        ("teardown", "d", exc_name), ("teardown", "a", exc_name)]
+                if log != want:
+                    fails.append(("gen-edge", f"events {log}, expected {want}"))
+
+        try:
+            anyio.run(main)
+        except BaseException as e:  # noqa: BLE001
+            fails.append(("gen-edge", f"scenario raised {e!r}"))
+        s = new_summary()
+        s["evaluations"] = s["transitions"] = s["states"] = s["distinct"] = s["nontrivial"] = 1
+        s["outcomes"] = {"done": 1}
+        if fails:
+            s["violations"].append({"keys": ["gen-edge"], "fails": [list(f) for f in fails], "program": {"gen_edges": True}, "choices": [], "trace": [],
+                                    "outcome": "done"})
+            s["keyhist"] = {"gen-edge": 1}
+        return s
+
+    def replay(self, rec: dict) -> Any:
+        if isinstance(rec.get("program"), dict) and rec["program"].get("gen_edges"):
+            s = self.gen_edges_unit()
+            for v in s["violations"]:
+                for f in v["fails"]:
+                    print("FAIL", f[0], "-", f[1])
+            print(f"VIOLATION property=C01 replay={rec.get('_path', '')}" if s["violations"] else "no violation on this tree")
+            return 1 if s["violations"] else 0
+        return super().replay(rec)
+
     def work(self, unit: Any, tier: str) -> dict:
         from ..explore import explore_program, new_summary
 
+        if isinstance(unit, dict) and unit.get("gen_edges"):
+            return self.gen_edges_unit()
         tot = new_summary()
         for prog in unit:
             s = explore_program(self, prog, self.bound(tier, prog), self.max_execs(tier, prog), self.hash_modes(tier, prog), self.backends_for(tier, prog))
